@@ -62,6 +62,8 @@ structure Chain where
   size  : Nat := 0
   head  : Ptr := none
   tail  : Ptr := none
+  /-- the allocator triple copied from the configuration (`list->mem_alloc/mem_calloc/mem_free`) -/
+  triple : Triple := .conf
   deriving Repr, DecidableEq
 
 namespace Chain
@@ -98,7 +100,9 @@ def swapNodes (l : Chain) (a b : Nat) : Chain :=
            head := l.head.swapPtr a b, tail := l.tail.swapPtr a b }
 
 /-- `link_behind(base, ins)` for a node `ins` (position `src`) that is already part of the chain and
-stands behind `base` (position `dst ≤ src`): it is unlinked and relinked in front of `base` -/
+stands behind `base` (position `dst < src`; for `dst = src` the C function would make the node its own
+neighbour, the model is the identity — the merge loop reaches that case only for a comparator with
+`cmp(x, x) > 0`, i.e. outside the contract): it is unlinked and relinked in front of `base` -/
 def moveBefore (l : Chain) (src dst : Nat) : Chain :=
   { l with nodes := (l.nodes.eraseIdx src).insertIdx dst (l.nodes.getD src 0),
            head := l.head.movePtr src dst, tail := l.tail.movePtr src dst }
@@ -143,25 +147,26 @@ def walkPrev (p : Ptr) : Nat → Ptr
 
 end Chain
 
-/-- `n` releases in a row -/
-def Mem.freeN : Nat → Mem → Mem
+/-- `n` releases in a row through the triple `t` -/
+def Mem.freeN (t : Triple) : Nat → Mem → Mem
   | 0, m => m
-  | k + 1, m => Mem.freeN k m.free
+  | k + 1, m => Mem.freeN t k (m.freeT t)
 
 namespace Chain
 /-! loops that `cc_list.c` and `cc_slist.c` share word for word -/
 
 /-- `link_all_externally`: one node per element of `src`; on a refusal every copy made so far is
-released.  Returns the data of the external chain. -/
-def linkAll (src : Chain) : Nat → Ptr → List Nat → Mem → Bool × List Nat × Mem
+released.  `t` is the triple of the **destination** list (`dest->mem_calloc`, `dest->mem_free`,
+repair L5).  Returns the data of the external chain. -/
+def linkAll (t : Triple) (src : Chain) : Nat → Ptr → List Nat → Mem → Bool × List Nat × Mem
   | 0, _, acc, m => (true, acc, m)
   | k + 1, ins, acc, m =>
-    let a := m.alloc
-    if !a.1 then (false, [], Mem.freeN acc.length a.2) else
+    let a := m.allocT t
+    if !a.1 then (false, [], Mem.freeN t acc.length a.2) else
     let m := a.2.check (ins.valid src.nodes.length)
-    linkAll src k (ins.next src.nodes.length) (acc ++ [src.data ins]) m
-def linkAllExternally (src : Chain) (m : Mem) : Bool × List Nat × Mem :=
-  linkAll src src.size src.head [] m
+    linkAll t src k (ins.next src.nodes.length) (acc ++ [src.data ins]) m
+def linkAllExternally (t : Triple) (src : Chain) (m : Mem) : Bool × List Nat × Mem :=
+  linkAll t src src.size src.head [] m
 
 /-- `for (i = 0; i < k; i++) { array[i] = node->data; node = node->next; }` -/
 def collect (l : Chain) : Nat → Ptr → Mem → List Nat × Mem
@@ -177,6 +182,36 @@ def writeBack : Nat → Nat → Ptr → List Nat → Chain → Mem → Chain × 
   | k + 1, i, node, vals, l, m =>
     let m := m.check (node.valid l.nodes.length && decide (i < vals.length))
     writeBack k (i + 1) (node.next l.nodes.length) vals (l.setData node (vals.getD i 0)) m
+/-- `while (node) { if (f(node->data)) count++; node = node->next; }` (`contains`, `contains_value`) -/
+def countLoop (l : Chain) (f : Nat → Bool) : Nat → Ptr → Nat → Mem → Nat × Mem
+  | 0, _, c, m => (c, m)
+  | k + 1, node, c, m =>
+    match node with
+    | none => (c, m)
+    | some _ =>
+      let m := m.check (node.valid l.nodes.length)
+      countLoop l f k (node.next l.nodes.length) (if f (l.data node) then c + 1 else c) m
+
+/-- `while (node) { if (f(node->data)) { *index = i; return CC_OK; } i++; node = node->next; }` -/
+def indexLoop (l : Chain) (f : Nat → Bool) : Nat → Ptr → Nat → Mem → Option Nat × Mem
+  | 0, _, _, m => (none, m)
+  | k + 1, node, i, m =>
+    match node with
+    | none => (none, m)
+    | some _ =>
+      let m := m.check (node.valid l.nodes.length)
+      if f (l.data node) then (some i, m) else indexLoop l f k (node.next l.nodes.length) (i + 1) m
+
+/-- `while (n) { op(n->data); n = n->next; }`: the arguments the callback receives -/
+def foreachLoop (l : Chain) : Nat → Ptr → Mem → List Nat × Mem
+  | 0, _, m => ([], m)
+  | k + 1, node, m =>
+    match node with
+    | none => ([], m)
+    | some _ =>
+      let m := m.check (node.valid l.nodes.length)
+      let r := foreachLoop l k (node.next l.nodes.length) m
+      (l.data node :: r.1, r.2)
 end Chain
 
 /-- `x - 1` in `size_t` -/
